@@ -420,8 +420,26 @@ func c09ChainFile(ns, attr string) srcFile {
 	return srcFile{ns + ".soy", sb.String()}
 }
 
+// what touches the package-level objects of the library (tablegen's pkg_var_methods): html tags and phname
+// attributes in messages (parse.htmlTagRegexp, soymsg.htmlTagNames), placeholder names that need every
+// regexp of soymsg.toUpperUnderscore, a map literal printed back as source (ast.stringEscaper, through the
+// placeholder's node text), changeNewlineToBr (soyhtml.newlinePattern), the log tag (soyhtml.Logger)
+var c09PkgStateFile = srcFile{"fix3.soy", `{namespace fix.three}
+
+/**
+ * @param userName
+ * @param item2go
+ * @param __x9y__z
+ */
+{template .links}
+{msg desc="link"}Click <a href="#top" phname="top_link">here</a>, {$userName}, for <b>{$item2go}</b><br/>{$__x9y__z}{/msg}
+{msg desc="map"}{['k\'1': $userName, 'k2': [1, 2]]} and {$userName|changeNewlineToBr}{/msg}
+{log}links for {$userName}{/log}
+{/template}
+`}
+
 func init() {
-	c09FixedFiles = append(c09FixedFiles, c09ChainFile("fix.chains", ""), c09ChainFile("fix.rawchains", ` autoescape="false"`))
+	c09FixedFiles = append(c09FixedFiles, c09ChainFile("fix.chains", ""), c09ChainFile("fix.rawchains", ` autoescape="false"`), c09PkgStateFile)
 }
 
 func c09IJ(r *hx.Rand) data.Map {
@@ -524,10 +542,13 @@ func c09GenCases(e *env) []*c09Built {
 		d3 := data.Map{"name": data.String("row"), "label": data.String("<i>l</i>")}
 		d4 := data.Map{"s": data.String("<a href='x'>some & text</a>")}
 		c.Cold = true
-		bt := c09Finish(e, c, []string{"fix.one.main", "fix.one.row", "fix.two.cell", "fix.chains.chains", "fix.rawchains.chains"}, [][]data.Map{{d1, d2}, {d3}, {rec}, {d4}, {d4}}, c09IJ(e.rng), withPO)
+		d5 := data.Map{"userName": data.String("Ann\nB. <C>"), "item2go": data.Int(7), "__x9y__z": data.String("z")}
+		bt := c09Finish(e, c, []string{"fix.one.main", "fix.one.row", "fix.two.cell", "fix.chains.chains", "fix.rawchains.chains", "fix.three.links"}, [][]data.Map{{d1, d2}, {d3}, {rec}, {d4}, {d4}, {d5}}, c09IJ(e.rng), withPO)
 		if bt != nil {
 			out = append(out, bt)
 			idx++
+		} else {
+			e.res.Fail(hx.Violation{Kind: "mismatch", What: "the fixed feature bundle of the C09 harness does not compile", Case: map[string]interface{}{"configuration": k}}, "")
 		}
 	}
 	for i := 0; i < nGen; i++ {
@@ -575,6 +596,11 @@ func runC09(e *env) {
 		c09Replay(e)
 		return
 	}
+	if diffs := c09PackageStateDiff(e); len(diffs) > 0 {
+		e.res.Note("package-level state of the sources differs from the reviewed lists (bin/c09_pkgstate_reviewed.json); the race search runs with three times the budget: %s", strings.Join(firstN(diffs, 40), "; "))
+		e.res.Histogram["package-state differs from the reviewed lists (entries)"] += len(diffs)
+		e.scale *= 3
+	}
 	t0 := time.Now()
 	cases := c09GenCases(e)
 	tGen := time.Since(t0)
@@ -591,6 +617,7 @@ func runC09(e *env) {
 	}
 	e.res.Note("time: generation and compilation in the main process %.1fs, worker processes %.1fs, verdicts and model tie %.1fs", tGen.Seconds(), tRun.Seconds(), time.Since(t2).Seconds())
 	c09WatchProbe(e)
+	c09PackageState(e)
 	e.res.Note("runtime oracle: worker subprocesses of this -race binary with GORACE=halt_on_error=1 exitcode=66; GOMAXPROCS per case from {1,2,4,8,16} capped at %d CPUs; Go %s", runtime.NumCPU(), runtime.Version())
 }
 
@@ -845,6 +872,7 @@ func c09Judge(e *env, bt *c09Built, o c09Outcome) {
 			"solo_first": firstN(r.Solo, 1), "renders": r.Renders, "js_writes": r.JSWrites, "compiles": r.Compiles})
 	}
 	c09ModelTie(e, bt, r)
+	c09JsTraceTie(e, bt)
 }
 
 func firstN(l []string, n int) []string {
